@@ -538,6 +538,10 @@ func (fc *funcContext) ConstIndex(value LValue) int {
 	ctype := value.Type()
 	for i, lv := range fc.Proto.Constants {
 		if lv.Type() == ctype && lv == value {
+			if n, ok := value.(LNumber); ok && n == 0 && math.Signbit(float64(n)) != math.Signbit(float64(lv.(LNumber))) {
+				// 0 and -0 compare equal but are different constants (1/-0 is -inf)
+				continue
+			}
 			return i
 		}
 	}
